@@ -243,10 +243,7 @@ def closure_coq(ctx, infos):
         else: items.append(('t%d' % n, 'r2a_table %d %d %d %s %s' % (blk.W, blk.DW, blk.DW // 8, sl, il)))
         metas.append((blk, cls, inputs, trans, seen, snaps))
     if not items: return
-    items.append(('probe', 'a2c_clears_on_handshake'))
     res = common.coq_eval('C16_tables', PRELUDE, items)
-    ctx.notes['regenerated_Axi2ClkFSM_clears_counter_at_handshake'] = res.pop('probe')   # selects the live branch of C16_axi2clk_fsm_back_to_back
-    items.pop()
     for n, (blk, cls, inputs, trans, seen, snaps) in enumerate(metas):
         table = res['t%d' % n]
         ns, no = (6, 4) if cls is B.A2R else (8, 6)
